@@ -30,20 +30,21 @@ var outOfScope = []string{
 
 // Prog is the loaded, type-checked program under analysis.
 type Prog struct {
-	Dir     string
-	Fset    *token.FileSet
-	Pkgs    []*packages.Package          // module packages in scope
-	PkgByID map[string]*packages.Package // by import path (all loaded, deps included)
-	SSA     *ssa.Program
-	Funcs   []*ssa.Function // all live source functions (incl. anonymous) of in-scope module packages, sorted
-	Dead    []*ssa.Function // source functions of in-scope packages that nothing reachable mentions
-	cg      *callgraph.Graph
-	res     *callResolver
-	idx     *idxFacts
-	pur     *purityResult
-	nInstr  int
-	sites   map[*ssa.Function][]ssa.CallInstruction
-	asValue map[*ssa.Function]bool
+	Dir        string
+	Fset       *token.FileSet
+	Pkgs       []*packages.Package          // module packages in scope
+	PkgByID    map[string]*packages.Package // by import path (all loaded, deps included)
+	SSA        *ssa.Program
+	Funcs      []*ssa.Function // all live source functions (incl. anonymous) of in-scope module packages, sorted
+	Dead       []*ssa.Function // source functions of in-scope packages that nothing reachable mentions
+	cg         *callgraph.Graph
+	res        *callResolver
+	idx        *idxFacts
+	pur        *purityResult
+	nInstr     int
+	sites      map[*ssa.Function][]ssa.CallInstruction
+	asValue    map[*ssa.Function]bool
+	funcTables map[*ssa.Global]map[int64]*ssa.Function
 }
 
 // loadProg loads dir (a checkout of the module) with optional overlay.
